@@ -337,3 +337,24 @@ PROPS["C07"] = {
     "assumptions": ["scc entry guard gives mutual exclusion per key"],
     "outside": "interleavings as executions, linearizability checking of histories, json_patch / insert_if_absent sites",
 }
+
+PROPS["C02"]["smt"] = "c02"
+PROPS["C02"]["engine_name"] = "E1-kani + E2-mir-smt"
+PROPS["C02"]["technique"] += "; SMT/trace obligations over the MIR of flush_pending_deletions (flush-mutex discipline)"
+PROPS["C02"]["level_text"] += " E2 over MIR, every path of flush_pending_deletions: the retirement `flush` mutex is taken before the pending queue is inspected or taken and held while markers are written – so a flusher that finds the queue empty has first waited for a batch another flusher already took (flush() cannot acknowledge while an acknowledged delete is only in another thread's hands)."
+PROPS["C02"]["functions"] += [WB + "::flush_pending_deletions"]
+
+PROPS["C01"] = {
+    "engine_name": "E2-mir-smt",
+    "technique": "SMT (z3) path-condition entailment and trace obligations over the MIR of the hash-table mutation steps (per-call step semantics only)",
+    "level_text": "Reduced claim – the per-call step semantics on which the last-writer-wins equivalence rests, not the equivalence over call sequences: on EVERY MIR path of update_record_with_ttl(_bytes), replace_record_if_current and delete_with_timestamp z3 shows (i) the entry is changed only with ts_new > CURRENT.timestamp under the entry guard (a write/delete takes effect only if its timestamp is greater), (ii) validate -> reserve -> publish: every modification of shared state (refcount/retired_at stores, successor link, index, clock, counters) happens after the last fallible step, and a path that returns Err before publication has no effect at all (a failing call leaves the logical contents unchanged), (iii) the publication is complete (hash table, ordered index, clock observation, accounting). resolve_timestamp treats exactly Some(non-zero) as explicit. Thorough adds the vacant-insert paths.",
+    "level_note": E2NOTE + ". NOT decided: call sequences, reads (tier fall-through memory/cache/disk), flush/reopen placement, JSON patch, range queries, configuration matrix – i.e. the equivalence itself. Claimed because these step obligations are the property's first and third anchored mechanisms and catch realistic slips in them; everything sequence- or tier-dependent is outside.",
+    "functions": [INTERNAL + "::update_record_with_ttl", INTERNAL + "::update_record_with_ttl_bytes", "src/core/store/atomic.rs::replace_record_if_current", OPS + "::delete_with_timestamp", OPS + "::resolve_timestamp"],
+    "smt": "c01",
+    "bounds": "every MIR path, loops unrolled twice",
+    "stubs": [],
+    "assumptions": ["scc entry guard gives mutual exclusion per key"],
+    "outside": "sequences of calls, storage tiers, flush/reopen, JSON patch, range queries, TTL calls",
+}
+PROPS["C05"]["kani"].append(H(WB, "c05_format_extent_size_agrees", "the retirement path's extent length (format_extent_size) equals the format's total_size.div_ceil(4096) for v1 AND v2/v3 – release side agrees with the allocate side", "3-byte key, all value lengths <= 4 MiB, versions 1..3"))
+PROPS["C05"]["functions"].append(WB + "::format_extent_size")
